@@ -164,6 +164,7 @@ class World:
         self.fproj = {p: {"live": False} for p in self.paths}
         self.events = []
         self.raised = None
+        self.prepared = fx.project(self.scr["train"])
 
     def fn(self, p):
         return os.path.join(self.tmp, "f%d.h5" % p)
@@ -461,7 +462,7 @@ def run_lifecycle(ctx, focus):
                 if w.events:
                     ok.append(w)
             total_paths += len(pick)
-            bad = validate(ctx, "TraceLifecycle", [{"events": w.events} for w in ok], decide=None, next_="TNext", init="TInit",
+            bad = validate(ctx, "TraceLifecycle", [{"events": w.events, "prepared": w.prepared} for w in ok], decide=None, next_="TNext", init="TInit",
                            invariants=["TInv"], constants={"Zero": 1, "MaxDepth": 99, "Paths": {1, 2}, "Export": False, "Focus": focus},
                            extra_files={"fixture.json": fjson}, note="fixture %s" % fx.name)
             # FIXTURE_FILE must be visible to the trace run as well
@@ -487,7 +488,7 @@ def run_lifecycle(ctx, focus):
                     return None
                 pool = [w for w in ok if (focus != "C02" or any(e["op"] == "save" for e in w.events))]
                 if pool:
-                    selftest(ctx, "TraceLifecycle", {"events": pool[0].events}, corrupt, decide=None, next_="TNext", init="TInit", invariants=["TInv"],
+                    selftest(ctx, "TraceLifecycle", {"events": pool[0].events, "prepared": pool[0].prepared}, corrupt, decide=None, next_="TNext", init="TInit", invariants=["TInv"],
                              constants={"Zero": 1, "MaxDepth": 99, "Paths": {1, 2}, "Export": False, "Focus": focus}, extra_files={"fixture.json": fjson})
             if ok:
                 ctx.sample({"fixture": fx.name, "history": [{k: v for k, v in e.items() if k != "after"} for e in ok[0].events][:6]})
@@ -527,7 +528,7 @@ def replay_lifecycle(ctx, focus, rp):
         if w.raised and _blame(focus, w):
             ctx.violation("replay: " + w.raised, rp)
         w.events = [e for e in w.events if "after" in e]
-        bad = validate(ctx, "TraceLifecycle", [{"events": w.events}], decide=None, next_="TNext", init="TInit", invariants=["TInv"],
+        bad = validate(ctx, "TraceLifecycle", [{"events": w.events, "prepared": w.prepared}], decide=None, next_="TNext", init="TInit", invariants=["TInv"],
                        constants={"Zero": 1, "MaxDepth": 99, "Paths": {1, 2}, "Export": False, "Focus": focus},
                        extra_files={"fixture.json": fx.to_json()})
         for i, clause in bad:
